@@ -33,11 +33,17 @@ def main(tier, seed):
         # the reference interpreter covers steps / branches / plain acts; block and generator skeletons are judged by the hierarchy oracle only
         orc = ("c03",) if n in ("par_block", "catch_nested_par") else ("c03", "c04")
         jobs.append(("props.race", "run_pair_race", (n, dict(oracles=orc, keep=True, max_paths=400 if tier == "quick" else 3000, seed=seed), "C04")))
+    # ... and a client action against the scheduler's worker: the client completes one act (no waiting), the signals this creates are pending, and the
+    # client's next completion runs while the worker executes one of them (either side pre-empted at one lock operation)
+    for n in (("two_branches_msg",) if tier == "quick" else ("two_branches_msg", "two_seq_branches", "par_block")):
+        orc = ("c03",) if n == "par_block" else ("c03", "c04")
+        jobs.append(("props.race", "run_pair_race", (n, dict(oracles=orc, keep=True, with_scheduler=True, max_paths=800 if tier == "quick" else 4000, seed=seed), "C04")))
     c.run_jobs(jobs)
     return c.finish(
         rule="one path = generated workflow (branch kinds if/else/needs in every declaration order, conditional steps and acts, nesting) x feasible valuation class of the "
              "comparison conditions over the integer inputs x, y (decided by z3) x schedule; the final task list and the state-write order are compared with a reference interpreter",
-        assumptions=ASSUME + ["thread scheduling: client-client races only (two threads, one pre-emption at a lock operation, see C05); races between a client action and a scheduler job "
-                             "running on a worker thread are outside the model (one job is atomic)", "a step whose branches combine an else branch with a needs branch is outside the grammar (the property does not say which wins)",
+        assumptions=ASSUME + ["thread scheduling: two client threads, and a client thread against the scheduler's worker executing ONE pending signal; one pre-emption at a lock operation (see C05); the "
+                             "Signal::Task arm of Scheduler::next is transcribed from its MIR (the lock it takes, create_context, exec, error handling), the async state machine itself is not executed; "
+                             "timer ticks racing with actions are outside the model", "a step whose branches combine an else branch with a needs branch is outside the grammar (the property does not say which wins)",
                              "number of OS worker threads is not modelled (queue service order is)"],
         bounds=dict(scenarios=len(ns), branches="2..3 per step", nesting=2, inputs="x, y in -3..8", backward_next="not included"))
